@@ -14,7 +14,7 @@ namespace TV
 structure Ip where
   v6 : Bool
   n : Nat
-deriving DecidableEq, Repr, Inhabited, BEq
+deriving DecidableEq, Repr, Inhabited
 
 namespace Ip
 /-- `0.0.0.0` / `::`. -/
@@ -28,7 +28,7 @@ end Ip
 structure Ep where
   ip : Ip
   port : Nat
-deriving DecidableEq, Repr, Inhabited, BEq
+deriving DecidableEq, Repr, Inhabited
 
 /-- `BindKey { domain, ty, local_addr, local_port }`. -/
 structure BindKey where
@@ -36,13 +36,13 @@ structure BindKey where
   tcp : Bool
   addr : Ip
   port : Nat
-deriving DecidableEq, Repr, Inhabited, BEq
+deriving DecidableEq, Repr, Inhabited
 
 abbrev Fd := Nat
 
 inductive TcpState
   | synSent | synRecv | estab | finWait1 | finWait2 | closeWait | lastAck | closing | closed
-deriving DecidableEq, Repr, Inhabited, BEq
+deriving DecidableEq, Repr, Inhabited
 
 structure Tcb where
   state : TcpState
@@ -289,12 +289,16 @@ def deliverUdp (k : Kernel) (src dst : Ep) (tag : Nat) : Kernel :=
       if (match s.peer with | some p => p != src | none => false) then k
       else { k with tbl := k.tbl.modify fd fun s => { s with recvq := s.recvq ++ [(src, tag)] } }
 
+def isListener (t : Table) (fd : Fd) : Bool :=
+  match t.get fd with
+  | some s => s.listen.isSome
+  | none => false
+
 /-- `tcp::find_listener`: exact key then wildcard key, first fd that is listening. -/
 def findListener (t : Table) (l : Ep) : Option Fd :=
-  let isL := fun fd => match t.get fd with | some s => s.listen.isSome | none => false
-  match (t.findByBind ⟨l.ip.v6, true, l.ip, l.port⟩).find? isL with
+  match (t.findByBind ⟨l.ip.v6, true, l.ip, l.port⟩).find? (isListener t) with
   | some fd => some fd
-  | none => (t.findByBind ⟨l.ip.v6, true, Ip.unspec l.ip.v6, l.port⟩).find? isL
+  | none => (t.findByBind ⟨l.ip.v6, true, Ip.unspec l.ip.v6, l.port⟩).find? (isListener t)
 
 /-- The demux decision of `tcp::deliver`. -/
 inductive TcpDemux
